@@ -137,7 +137,7 @@ def run(tier):
     v.notes["gen_accepted"] = sum(1 for o in good if isinstance(o.get("out"), dict) and o["out"].get("ok"))
     v.sample(wc.shrink(good[len(good) // 3], 40))
     # --- TV: random constructor calls
-    rc = random_cases(r_, 4000 if tier == "quick" else 80000)
+    rc = random_cases(r_, 4000 if tier == "quick" else 40000)
     inp = os.path.join(wd, "tv.in.ndjson")
     out = os.path.join(wd, "tv.out.ndjson")
     write_ndjson(inp, rc)
